@@ -4,6 +4,7 @@ import (
 	"context"
 	"encoding/binary"
 	"fmt"
+	"io"
 	"sync"
 	"time"
 
@@ -44,6 +45,10 @@ type QuicTransportOpts struct {
 	// Default is defaultDialTimeout.
 	DialTimeout time.Duration
 	Logger      *zerolog.Logger
+
+	// Closer will be closed when the QuicTransport was closed. (e.g. the
+	// quic.Transport and its socket that DialContext uses.) Optional.
+	Closer io.Closer
 }
 
 func NewQuicTransport(opts QuicTransportOpts) *QuicTransport {
@@ -72,6 +77,9 @@ func (t *QuicTransport) Close() error {
 	t.cancelCtx(ErrClosedTransport)
 	if t.c != nil {
 		t.c.CloseWithError(quic.ApplicationErrorCode(_DOQ_NO_ERROR), "")
+	}
+	if t.opts.Closer != nil {
+		t.opts.Closer.Close()
 	}
 	return nil
 }
